@@ -283,6 +283,25 @@ def idiom(r):
     """nixpkgs-style file head: lambda head, then `with …;` / `assert …;` statements separated by single blank lines
     (optionally an own-line comment in front of one of them), then a package body."""
     head = r.choice(["{ lib, stdenv }:", "{ lib, stdenv, fetchurl }:", "{\n  lib,\n  stdenv,\n  fetchurl,\n  ...\n}:", "{ pkgs, ... }:", "pkgs:"])
+    if r.random() < 0.35:
+        # multi-line formals with the trivia nixpkgs heads carry: end-of-line comments, groups separated by one blank
+        # line, own-line comments in front of a formal, defaults; always closed by `...` (a trailing comma is an
+        # environment limit of the pinned grammar)
+        names = r.sample(["lib", "stdenv", "fetchurl", "zlib", "openssl", "python3", "enableFoo", "withGui", "cmake"], r.randint(2, 6))
+        hl = ["{"]
+        for i, nm in enumerate(names):
+            if i and r.random() < 0.3:
+                hl.append("")
+            if i and r.random() < 0.3:
+                hl.append(r.choice(["  # optional features", "  # build inputs", "  # see issue 7"]))
+            ln = "  " + nm + (r.choice([" ? null", " ? false", " ? true", ' ? "x"']) if r.random() < 0.3 else "") + ","
+            if r.random() < 0.3:
+                ln += r.choice([" # fetches the tarball", " # the build environment", " # TODO"])
+            hl.append(ln)
+        if r.random() < 0.2:
+            hl.append("")
+        hl += ["  ...", "}:"]
+        head = "\n".join(hl)
     stmts = []
     for _ in range(r.randint(1, 3)):
         stmts.append(r.choice(["with lib;", "with pkgs;", "assert stdenv.isLinux;", "assert enableFoo -> foo != null;", "assert lib.assertMsg ok \"message\";"]))
